@@ -1,6 +1,7 @@
 (* Decoding of C17 cases and verdicts. *)
 From Coq Require Import List NArith ZArith Bool.
 From FS Require Import Sx Model.Path Model.Stat Model.Tree Model.Hardlinks Model.TarHdr.
+From FS Require Model.Pattern Model.FilterWalk.
 Import ListNotations.
 Open Scope N_scope.
 
@@ -55,10 +56,6 @@ Fixpoint extras_ok (l : list entry) (xs : list extras) : bool :=
   | _, _ => false
   end.
 
-(* mtimes whose rounded value is representable in int64 nanoseconds *)
-Definition mtime_in_range (e : entry) : bool :=
-  (Z.leb (-9223372036500000000) (sint (st_mtime (fst e))) && Z.ltb (sint (st_mtime (fst e))) 9223372036500000000)%Z.
-
 Fixpoint first_bad (l : list entry) (ms : list member) (i : N) : sx :=
   match l, ms with
   | [], [] => SL []
@@ -83,6 +80,12 @@ Definition spec_archive (l : list entry) (closed : bool) (impl : sx) : bool * sx
     end
   else (true, SL []).                       (* outside the domain: nothing claimed; model = impl is still checked *)
 
+(* when must every hard-link member of the real archive name an earlier regular member?  On
+   views whose links are closed, and (Properties/C17.filtered_links_resolve) on every listing
+   the filters leave of a canonical walk whose link groups are of one type *)
+Definition resolvable (l : list entry) : bool :=
+  wf_links (map fst l) && group_types_agree l && wf_listing_b (reset_entries l).
+
 (* kind 1701: input = (view chunklen); impl = archive result of the real WriteTar *)
 Definition run_1701 (input impl : sx) : sx :=
   match input with
@@ -95,7 +98,7 @@ Definition run_1701 (input impl : sx) : sx :=
       (* on a view whose links are closed the reset changes nothing: the expectation is the
          view's own walk, independently of the reset model *)
       let l_spec := if links_closed l then l else reset_entries l in
-      let sp := spec_archive l_spec (links_closed l) impl in
+      let sp := spec_archive l_spec (links_closed l || resolvable l) impl in
       verdict m impl (fst sp) (snd sp)
     end
   | _ => v_malformed
@@ -122,20 +125,67 @@ Fixpoint is_sublisting (reset : bool) (sub : list stat) (l : list entry) : bool 
     else is_sublisting reset sub l'
   end.
 
+(* Known finding K1 (moby/patternmatcher, C10 "late-shadow") seen through WriteTar: the walk
+   of the filtered FS lists a file that filterFS.Open (MatchesOrParentMatches on the full
+   path) refuses, so WriteTar fails with "open p: file does not exist".  The signature is
+   computed from the case with C10's pattern model (Model/Pattern.v, Model/FilterWalk.v) over
+   the table of real single-pattern match results the harness sends along: WriteTar stopped at
+   member k, the model exports the listing, entry k carries a payload (so WriteTar opens it),
+   the naive verdict on its path is "hidden" and the path is a late-shadow path. *)
+Definition ptable := list (bytes * bytes * bool).
+Definition dec_pentry (s : sx) : option (bytes * bytes * bool) :=
+  match s with SL [SB p; SB q; b] => b' <- sx_bool b ;; Some (p, q, b') | _ => None end.
+Fixpoint table_pmatch (t : ptable) (P q : bytes) : bool :=
+  match t with
+  | [] => false
+  | (p', q', b) :: r => if bytes_eqb p' P && bytes_eqb q' q then b else table_pmatch r P q
+  end.
+
+Definition s_sig : bytes := [115; 105; 103].                                     (* "sig" *)
+Definition s_late_shadow : bytes :=                                              (* "late-shadow" *)
+  [108; 97; 116; 101; 45; 115; 104; 97; 100; 111; 119].
+
+Definition open_denied_late_shadow (tbl : ptable) (c : FilterWalk.cfg) (l : list entry) (res : sx) : bool :=
+  match res, write_tar_listing l with
+  | SL [SN 1; SN k], TarOk _ =>
+    match nth_error (reset_entries l) (N.to_nat k) with
+    | Some e =>
+      let p := st_path (fst e) in
+      has_payload (hdr_of_stat (fst e))
+      && negb (FilterWalk.keep_naive (table_pmatch tbl) c p)
+      && negb (FilterWalk.nls_path (table_pmatch tbl) c p)
+    | None => false
+    end
+  | _, _ => false
+  end.
+
 Definition run_1702 (input impl : sx) : sx :=
   match input, impl with
-  | SL [v; SL _; SL _; rs], SL [lst; res] =>
+  | SL [v; SL _; SL _; rs], SL [SL []; SL [SN 9]] => v_malformed      (* patterns rejected by NewFilterFS: not modelled *)
+  | SL [v; inc; exc; rs], SL (lst :: res :: more) =>
     match dec_view v, sx_list dec_stat lst, sx_bool rs with
     | Some view, Some stats, Some reset =>
       let vl := walk_root view in
       let l := map (fun s => (s, content_of vl (st_path s))) stats in
       let m := SL [lst; enc_result (write_tar_listing l)] in
+      let impl' := SL [lst; res] in
       let sub_ok := is_sublisting reset stats vl in
       (* reset = true: the listing already went through the real WithHardlinkReset and is the
          expectation as it stands; otherwise the reset model gives the expected link names *)
       let l_spec := if reset then l else reset_entries l in
-      let sp := spec_archive l_spec (links_closed vl) res in
-      verdict m impl (sub_ok && fst sp) (if negb sub_ok then SL [SB [115; 117; 98]] else snd sp)
+      let sp := spec_archive l_spec (links_closed vl || resolvable l) res in
+      let known :=
+        match more, sx_list sx_B inc, sx_list sx_B exc with
+        | [pt], Some ir, Some er =>
+          match sx_list dec_pentry pt, FilterWalk.mk_cfg ir er with
+          | Some tbl, Some c => open_denied_late_shadow tbl c l res
+          | _, _ => false
+          end
+        | _, _, _ => false
+        end in
+      let info := if negb sub_ok then SL [SB [115; 117; 98]] else snd sp in
+      verdict m impl' (sub_ok && fst sp)
+              (if known then SL [SL [SB s_sig; SB s_late_shadow]; info] else info)
     | _, _, _ => v_malformed
     end
   | _, _ => v_malformed
